@@ -25,6 +25,13 @@ def handler(kind):
 @handler("bisection")
 def h_bisection(rec):
     m, rp = rec["model"] or {}, rec["replay"]
+    if rp["fn"] == "_autoregressive_bisection_search":
+        import grids
+
+        fails = grids.c10_cases("quick", 0, only_fn=rp["fn"])
+        if fails:
+            return True, fails[0]["what"] + f" [case {fails[0]['case']}]"
+        return False, "triangular-map grid of the coordinate-wise driver passed on the real code"
     try:
         case = dict(fn=rp["fn"], root=rt.fnum(m["r"]), lower=rt.fnum(m["lo0"]), upper=rt.fnum(m["hi0"]), table=m.get("fn:f"))
         if rp["fn"] == "_bisection_search":
